@@ -41,6 +41,7 @@ func init() {
 			{Name: "recv-retain-per-kind", Mode: "enum", Reset: kit.ResetGlobals, Body: recvRetain, NeedCounters: []string{"retained-checked", "buffer-reused"}},
 			{Name: "send-outcomes-per-kind", Mode: "enum", Reset: kit.ResetGlobals, Body: sendOutcomes,
 				NeedCounters: []string{"send-ok", "send-timeout-intact", "send-closed-intact", "send-nopeers-intact", "send-besteffort"}},
+			{Name: "request-released-before-the-reply", Mode: "enum", Reset: kit.ResetGlobals, Body: replyAfterRelease, NeedCounters: []string{"reply-routed-after-release"}},
 			{Name: "send-app-cloned-message", Mode: "enum", Reset: kit.ResetGlobals, Body: sendCloned, NeedCounters: []string{"cloned-send-ok"}},
 			{Name: "newmessage-shape", Mode: "enum", Reset: kit.ResetGlobals, Body: newShape},
 			{Name: "fanout-pubsub-inproc", Mode: "sched", Bound: b, Cfg: pool, Reset: kit.ResetGlobals, Body: fanoutPubSub},
@@ -266,6 +267,57 @@ func sendOutcomes() {
 		kit.Count("send-besteffort")
 	}
 	kit.Observe("%s %s", k.Name, outcome)
+	kit.Must("Close", func() { _ = x.S.Close() })
+	kit.Quiesce()
+}
+
+// replyAfterRelease: a REP / RESPONDENT application receives a request, overwrites and releases it
+// (it is the application's), further requests from another peer arrive and recycle the buffers, and
+// only then the reply is sent: it must still carry the routing header of the request it answers
+// and go to the peer that asked - the library may not keep pointers into a message it has handed
+// out.
+func replyAfterRelease() {
+	k := kinds.ByName([]string{"rep", "respondent"}[kit.ChooseFree(2)])
+	size := []int{5, 70, 300}[kit.ChooseFree(3)]
+	later := kit.ChooseFree(3) // further requests before the reply
+	x := k.Open("c17ra", true, false)
+	x.Quiet()
+	p2 := x.EP.Connect()
+	kit.Quiesce()
+	wireA := x.Wire(payload("req-A", size))
+	x.P.Deliver(wireA)
+	kit.Quiesce()
+	c := kit.Start("Recv", func() (interface{}, error) { return x.Recv() }) // overwrites and frees the message
+	kit.Quiesce()
+	if !c.Done() || c.Err != nil {
+		kit.Failf("setup", "%s: Recv done=%v %s", k.Name, c.Done(), kit.ErrName(c.Err))
+	}
+	for i := 0; i < later; i++ {
+		w := x.Wire(payload(fmt.Sprintf("req-B%d", i), size))
+		w[1] ^= 0x55 // another requester's id
+		p2.Deliver(w)
+		kit.Quiesce()
+	}
+	reply := payload("reply-A", size)
+	sc := kit.Start("Send", func() (interface{}, error) { return nil, x.S.Send([]byte(reply)) })
+	kit.Quiesce()
+	if !sc.Done() || sc.Err != nil {
+		kit.Failf("reply-send:"+k.Name, "%s: Send of the reply: done=%v %s", k.Name, sc.Done(), kit.ErrName(sc.Err))
+	}
+	if n := p2.NumSent(); n != 0 {
+		kit.Failf("reply-misrouted-after-release:"+k.Name, "%s: the reply to the first peer's request was written to the other peer (%d message(s))", k.Name, n)
+	}
+	l := x.P.SentLog()
+	want := append(append([]byte{}, wireA[:4]...), reply...)
+	if len(l) != 1 || string(l[0].Data) != string(want) {
+		var got []byte
+		if len(l) > 0 {
+			got = l[0].Data
+		}
+		kit.Failf("reply-header-after-release:"+k.Name, "%s: the request was overwritten and released by the application, %d further request(s) arrived, then the reply was sent: the asker got %d message(s), first %q, want the request's routing header %x followed by the reply", k.Name, later, len(l), clip(got), wireA[:4])
+	}
+	kit.Count("reply-routed-after-release")
+	kit.Observe("%s %d %d", k.Name, size, later)
 	kit.Must("Close", func() { _ = x.S.Close() })
 	kit.Quiesce()
 }
